@@ -2908,7 +2908,7 @@ FROM (
 
         rule_name = rule.name or ""
         ec_sql = self._error_code_sql(rule.erCode)
-        el_sql = self._error_code_sql(rule.erLevel)
+        el_sql = self._error_level_sql(rule.erLevel)
         select_parts = [quote_name(c) for c in id_cols + measure_cols]
         viral_parts = [quote_name(comp.name) for comp in viral_comps or []]
         if output_mode == "invalid":
@@ -3234,9 +3234,11 @@ FROM (
         inner_sql = f"SELECT {', '.join(inner_cols)} FROM _pivot{inner_where_clause}"
 
         ec_sql = self._error_code_sql(rule.erCode)
-        el_sql = self._error_code_sql(rule.erLevel)
+        el_sql = self._error_level_sql(rule.erLevel)
         el_null = (
-            "CAST(NULL AS DOUBLE)" if self._is_numeric(rule.erLevel) else "CAST(NULL AS VARCHAR)"
+            "CAST(NULL AS DOUBLE)"
+            if rule.erLevel is None or self._is_numeric(rule.erLevel)
+            else "CAST(NULL AS VARCHAR)"
         )
 
         q_rc = quote_name(rule_comp)
@@ -3586,6 +3588,14 @@ FROM (
         """Convert an errorcode value to a SQL literal."""
         return "CAST(NULL AS VARCHAR)" if value is None else self._to_sql_literal(value=value)
 
+    def _error_level_sql(self, value: Any) -> str:
+        """Convert an errorlevel value to a SQL literal.
+
+        A missing errorlevel is a numeric NULL: a VARCHAR NULL would turn the numeric
+        errorlevels of the other rules of the ruleset into strings (UNION ALL type unification).
+        """
+        return "CAST(NULL AS DOUBLE)" if value is None else self._to_sql_literal(value=value)
+
     def visit_Validation(self, node: AST.Validation) -> str:
         """Visit CHECK validation operator."""
         # Stash ``current_assignment`` so _build_ds_ds_binary doesn't rename the
@@ -3594,7 +3604,7 @@ FROM (
             validation_sql = self.visit(node.validation)
 
         error_code = self._error_code_sql(node.error_code)
-        error_level = self._error_code_sql(node.error_level)
+        error_level = self._error_level_sql(node.error_level)
 
         ds = self._get_dataset_structure(node.validation)
         if ds is None:
